@@ -11,7 +11,7 @@ ID = "C06"
 META = {
     "technique": "runtime monitoring: return values of the three feasibility checkers compared against an independent phasor oracle on boundary-scaled schedules",
     "design_ref": "DESIGN.md section 6 C06",
-    "level_text": "exploration: every generated (network, tolerances, schedule) triple is judged by an independent complex-arithmetic oracle in phasor and linear mode, with schedules scaled to k*tolerance of the binding limit; checker agreement and linear conservativeness asserted on the same inputs; constraint-free networks driven through real simulations; schedules of 257-8200 periods with the one decisive column at every seam position (first, last, around powers of two and multiples of 100/128/250/1000); schedules in which every station discharges",
+    "level_text": "exploration: every generated (network, tolerances, schedule) triple is judged by an independent complex-arithmetic oracle in phasor and linear mode, with schedules scaled to k*tolerance of the binding limit; checker agreement and linear conservativeness asserted on the same inputs; constraint-free networks driven through real simulations; schedules of 257-8200 periods with the one decisive column at every seam position (first, last, around powers of two and multiples of 100/128/250/1000); schedules in which every station discharges; schedules as non-dict mappings; a malformed candidate with tolerances of its own before the judged calls",
     "level_note": "oracle uses float64 with compensated sums and a guard band 1e-11*(1+L) (cases inside are counted, not judged); the algorithm-side checker is compared only with explicit tolerances (its defaults are hard-coded)",
 }
 LEVEL = "exploration"
